@@ -100,13 +100,23 @@ func (s *wire6) Plan(w *World) {
 			w.Chain6 = []PluginConf{{"zz_syn6", []string{"a", "modify"}}, sidConf, {"zz_syn", []string{"b", "replace"}}}
 		}
 	}
-	switch t.Draw(3) {
+	switch t.Draw(6) {
 	case 0:
 		w.LSpecs = []ListenerSpec{{V6: true, IfIndex: 0}, {V6: false, IfIndex: 0}}
 	case 1:
 		w.LSpecs = []ListenerSpec{{V6: true, IfIndex: 2}, {V6: true, IfIndex: 3}, {V6: true, IfIndex: 4}, {V6: false, IfIndex: 2}, {V6: false, IfIndex: 3}, {V6: false, IfIndex: 4}}
-	default:
+	case 2:
 		w.LSpecs = []ListenerSpec{{V6: true, IfIndex: 3}, {V6: true, IfIndex: 0}, {V6: false, IfIndex: 0}}
+	case 3:
+		// the site-scoped All_DHCP_Servers group without a zone (part of the default configuration): joined on no
+		// particular interface, not bound to one
+		w.LSpecs = []ListenerSpec{{V6: true, Addr: net.ParseIP("ff05::1:3")}, {V6: false, Addr: ifaceAddr4(3)}}
+	case 4:
+		// a global unicast address without a zone
+		w.LSpecs = []ListenerSpec{{V6: true, Addr: ifaceAddr6(2 + int(t.Draw(3)))}, {V6: false, IfIndex: 0}}
+	default:
+		// a link-local unicast address on its interface, the wildcard for the other links
+		w.LSpecs = []ListenerSpec{{V6: true, IfIndex: 3, Addr: ifaceLL6(3)}, {V6: true, IfIndex: 0}, {V6: false, IfIndex: 0}}
 	}
 	for i := 0; i < 4; i++ {
 		s.clients6 = append(s.clients6, newClient6(t, i, 2+int(t.Draw(3))))
